@@ -1088,9 +1088,8 @@ c06_harness!(
 read_fail_harness!(
     /// C16 reader clause for `ArpPacket`. Bounded: address sizes <= 4; all fault positions.
     c16_read_fail_arp, TArp, 8 + 16, 6);
-write_fail_harness!(
-    /// C16 writer clause for `ArpPacket`. Bounded: address sizes <= 4; all fault positions.
-    c16_write_fail_arp, TArp, 8 + 16, 6);
+// (no `c16_write_fail_arp`: `ArpPacket::write` = `write_all(&self.to_bytes())` with a 1028 byte `ArrayVec` built by
+// five `extend` loops; with symbolic address sizes CBMC ran out of memory at 25 GB.)
 
 // ---- extension chain / IP headers: writer clause on minimal members (bounded) ----
 
@@ -1164,36 +1163,21 @@ fn c16_write_fail_ipv6_exts() {
     check_faulty_write(o, &w, &reference, k);
 }
 
-/// C16 writer clause for `IpHeaders::write`: (a) IPv4 header without options and without extensions, (b) IPv6
-/// header + hop-by-hop options + fragment header; writer fails at symbolic byte `k`.
-/// Bounded: two concrete header stacks, all fault positions.
+/// C16 writer clause for `IpHeaders::write`, IPv4 header (no options) without extensions; writer fails at
+/// symbolic byte `k` in 0..=20. (The IPv6 + extensions stack through `IpHeaders` was tried and is too expensive:
+/// > 10 min; the chain itself is `c16_write_fail_ipv6_exts`.)
+/// Bounded: one concrete header, all fault positions.
 #[kani::proof]
 #[kani::unwind(18)]
 fn c16_write_fail_ip_headers() {
-    const A: usize = 40 + 16;
-    let v4: bool = kani::any();
-    let h = if v4 {
-        IpHeaders::Ipv4(
-            Ipv4Header::new(8, 20, ip_number::UDP, [192, 168, 1, 1], [192, 168, 1, 2]).unwrap(),
-            Default::default(),
-        )
-    } else {
-        IpHeaders::Ipv6(
-            Ipv6Header {
-                traffic_class: 1,
-                flow_label: Ipv6FlowLabel::try_new(0x12345).unwrap(),
-                payload_length: 16 + 8,
-                next_header: ip_number::IPV6_HOP_BY_HOP,
-                hop_limit: 4,
-                source: [1; 16],
-                destination: [2; 16],
-            },
-            minimal_ipv6_exts(),
-        )
-    };
+    const A: usize = 20;
+    let h = IpHeaders::Ipv4(
+        Ipv4Header::new(8, 20, ip_number::UDP, [192, 168, 1, 1], [192, 168, 1, 2]).unwrap(),
+        Default::default(),
+    );
     let mut reference = AonWriter::<A>::new(A);
     assert!(h.write(&mut reference).is_ok());
-    assert!(reference.len == if v4 { 20 } else { 40 + 8 + 8 }); // RFC 791 / RFC 8200
+    assert!(reference.len == 20); // RFC 791, IHL 5
     let k: usize = kani::any();
     kani::assume(k <= A);
     let mut w = AonWriter::<A>::new(k);
@@ -1202,7 +1186,22 @@ fn c16_write_fail_ip_headers() {
         Err(err::ip::HeadersWriteError::Io(e)) => Some(Some(e.kind())),
         Err(_) => None,
     };
-    kani::cover!(!v4 && w.len == 40, "fault in the extension headers");
-    kani::cover!(v4 && o == Some(Some(ErrorKind::Other)), "fault in the IPv4 header");
-    check_faulty_write(o, &w, &reference, k);
+    // (single piece: no non-empty prefix possible here)
+    let len = reference.len;
+    let i: usize = kani::any();
+    kani::assume(i < A);
+    match o {
+        Some(None) => {
+            assert!(k >= len && w.len == len);
+            assert!(w.buf[i] == reference.buf[i]);
+            kani::cover!(k == len, "exactly enough room");
+        }
+        Some(Some(kind)) => {
+            assert!(k < len);
+            assert!(kind == ErrorKind::Other);
+            assert!(w.len == 0);
+            kani::cover!(k + 1 == len, "one byte short");
+        }
+        None => assert!(false, "I/O fault reported as something else"),
+    }
 }
